@@ -143,3 +143,27 @@ class Timer:
 
     def s(self):
         return round(time.time() - self.t0, 3)
+
+
+import contextlib as _contextlib
+import logging as _logging
+
+
+@_contextlib.contextmanager
+def debug_logging():
+    """The application has switched the library's loggers to DEBUG (records are swallowed by a null handler)."""
+    lg = _logging.getLogger("gscrib")
+    old_level, old_prop = lg.level, lg.propagate
+    h = _logging.NullHandler()
+    lg.addHandler(h)
+    lg.setLevel(_logging.DEBUG)
+    lg.propagate = False
+    old_disable = _logging.root.manager.disable
+    _logging.disable(_logging.NOTSET)          # import_gscrib() silences logging globally for the other checks
+    try:
+        yield
+    finally:
+        _logging.disable(old_disable)
+        lg.setLevel(old_level)
+        lg.propagate = old_prop
+        lg.removeHandler(h)
